@@ -666,9 +666,13 @@ class Gen:
     s = sc.StudyConfig(**kw)
     if r.random() < 0.25:
       # an object that came from a proto and was edited afterwards (keeps the original proto)
-      s = sc.StudyConfig.from_proto(s.to_proto())
-      s.algorithm = r.choice(['GRID_SEARCH', ''])
-      s.metadata.ns('edited')['k'] = 'v'
+      try:
+        s2 = sc.StudyConfig.from_proto(s.to_proto())
+        s2.algorithm = r.choice(['GRID_SEARCH', ''])
+        s2.metadata.ns('edited')['k'] = 'v'
+        s = s2
+      except Exception:   # pylint: disable=broad-except
+        pass              # a converter that raises is reported by the batch on `s` itself
     return s
 
   def descriptor(self):
@@ -844,44 +848,49 @@ def identify_flags(c):
   """Replay the witness of each counterexample theorem on the real code."""
   pc, tr, pcfg = V['pc'], V['tr'], V['pcfg']
   flags = {}
+
+  def replay(flag, kind, make, ok, key, describe):
+    """flag := the witness survives; a converter that raises is reported and the intended variant assumed."""
+    to, frm, cpy, _ = kinds()[kind]
+    ws = make()
+    bad = []
+    for w in ws:
+      try:
+        b = frm(to(w))
+      except Exception as e:   # pylint: disable=broad-except
+        c.prop_fail('witness-raises:' + kind, '%s witness of %s: converter raised %s: %s' % (kind, flag, type(e).__name__, str(e)[:200]),
+                    {'type': kind, 'x': cpy(w)})
+        continue
+      if not ok(w, b):
+        bad.append((w, b))
+    flags[flag] = not bad
+    if bad:
+      w, b = bad[0]
+      c.prop_fail(key, describe(w, b, len(bad), len(ws)), {'type': kind, 'x': cpy(w), 'back': cpy(b)})
+
+  F = pcfg.ParameterConfig.factory
   # c09_measurement_counterexample: elapsed_secs = 3/2
-  m = tr.Measurement(elapsed_secs=1.5)
-  back = pc.MeasurementConverter.from_proto(pc.MeasurementConverter.to_proto(m))
-  flags['readNanos'] = back.elapsed_secs == 1.5
-  if not flags['readNanos']:
-    c.prop_fail(KEY_NANOS, 'Measurement(elapsed_secs=1.5) comes back from its proto with elapsed_secs=%r (nanos never read)' % back.elapsed_secs,
-                {'type': 'meas', 'x': canon_meas(m), 'back': canon_meas(back)})
+  replay('readNanos', 'meas', lambda: [tr.Measurement(elapsed_secs=1.5)], lambda w, b: b.elapsed_secs == 1.5, KEY_NANOS,
+         lambda w, b, k, n: 'Measurement(elapsed_secs=1.5) comes back from its proto with elapsed_secs=%r (nanos never read)' % b.elapsed_secs)
   # c09_paramConfig_default(_str)_counterexample
-  ws = [pcfg.ParameterConfig.factory('x', bounds=(-1.0, 1.0), default_value=0.0),
-        pcfg.ParameterConfig.factory('c', feasible_values=['', 'a'], default_value=''),
-        pcfg.ParameterConfig.factory('i', bounds=(0, 3), default_value=0),
-        pcfg.ParameterConfig.factory('d', feasible_values=[0.0, 1.0], default_value=0.0)]
-  lost = []
-  for w in ws:
-    b = pc.ParameterConfigConverter.from_proto(pc.ParameterConfigConverter.to_proto(w))
-    if b.default_value is None:
-      lost.append((w, b))
-  flags['defaultHasField'] = not lost
-  if lost:
-    w, b = lost[0]
-    c.prop_fail(KEY_DEFAULT, 'ParameterConfig %r with default_value=%r comes back with default_value=None (truthiness test); %d of 4 falsy defaults lost' % (w.name, w.default_value, len(lost)),
-                {'type': 'pc', 'x': canon_pc(w), 'back': canon_pc(b)})
+  replay('defaultHasField', 'pc',
+         lambda: [F('x', bounds=(-1.0, 1.0), default_value=0.0), F('c', feasible_values=['', 'a'], default_value=''),
+                  F('i', bounds=(0, 3), default_value=0), F('d', feasible_values=[0.0, 1.0], default_value=0.0)],
+         lambda w, b: b.default_value is not None, KEY_DEFAULT,
+         lambda w, b, k, n: 'ParameterConfig %r with default_value=%r comes back with default_value=None (truthiness test); %d of %d falsy defaults lost' % (w.name, w.default_value, k, n))
+
   # c09_paramConfig_depth_counterexample
-  g = pcfg.ParameterConfig.factory('c', bounds=(0.0, 1.0), scale_type=pcfg.ScaleType.LINEAR)
-  ch = pcfg.ParameterConfig.factory('b', bounds=(0, 3), children=[([1], g)])
-  w = pcfg.ParameterConfig.factory('a', feasible_values=['x', 'y'], children=[(['x'], ch)])
-  b = pc.ParameterConfigConverter.from_proto(pc.ParameterConfigConverter.to_proto(w))
-  flags['recurseBeforeCopy'] = pc_depth(canon_pc(b)) == 2
-  if not flags['recurseBeforeCopy']:
-    c.prop_fail(KEY_DEPTH, 'conditional parameter a -> b -> c (depth 2) comes back with depth %d: the grandchild is not in the proto' % pc_depth(canon_pc(b)),
-                {'type': 'pc', 'x': canon_pc(w), 'back': canon_pc(b)})
+  def deep():
+    g = F('c', bounds=(0.0, 1.0), scale_type=pcfg.ScaleType.LINEAR)
+    ch = F('b', bounds=(0, 3), children=[([1], g)])
+    return [F('a', feasible_values=['x', 'y'], children=[(['x'], ch)])]
+  replay('recurseBeforeCopy', 'pc', deep, lambda w, b: pc_depth(canon_pc(b)) == 2, KEY_DEPTH,
+         lambda w, b, k, n: 'conditional parameter a -> b -> c (depth 2) comes back with depth %d: the grandchild is not in the proto' % pc_depth(canon_pc(b)))
   # c09_trial_infeasible_time_counterexample
-  t = tr.Trial(id=1, creation_time=dt_of(10**6), completion_time=dt_of(2 * 10**6), infeasibility_reason='bad')
-  b = pc.TrialConverter.from_proto(pc.TrialConverter.to_proto(t))
-  flags['infeasibleEndTime'] = us_of(b.completion_time) == 2 * 10**6
-  if not flags['infeasibleEndTime']:
-    c.prop_fail(KEY_INFEASIBLE_TIME, 'infeasible Trial created at t=1s, completed at t=2s comes back with completion time %s us (end_time only read for SUCCEEDED trials)' % us_of(b.completion_time),
-                {'type': 'trial', 'x': canon_trial(t), 'back': canon_trial(b)})
+  replay('infeasibleEndTime', 'trial',
+         lambda: [tr.Trial(id=1, creation_time=dt_of(10**6), completion_time=dt_of(2 * 10**6), infeasibility_reason='bad')],
+         lambda w, b: us_of(b.completion_time) == 2 * 10**6, KEY_INFEASIBLE_TIME,
+         lambda w, b, k, n: 'infeasible Trial created at t=1s, completed at t=2s comes back with completion time %s us (end_time only read for SUCCEEDED trials)' % us_of(b.completion_time))
   c.flags.update(flags)
   return flags
 
@@ -966,8 +975,9 @@ class Batch:
         what.append('from_proto(to_proto(x)) differs from x: %s' % first_diff(m['norm'], m['norm_back']))
       if not idem_ok:
         what.append('to_proto(from_proto(to_proto(x))) is not identical to to_proto(x): %s' % first_diff(rec['cp'], rec['cp2']))
-      if cls and (tie_ok or not exact or cls[0] == KEY_TRAILING_BS):
-        key = cls[0]          # explained: the model of the identified variant predicts exactly this
+      model_fails = m['norm_mback'] != m['norm'] or m['again'] != m['proto']
+      if cls and (tie_ok or not exact or model_fails):
+        key = cls[0]          # explained: the model of the identified variant predicts a failure on this input
       elif cls:
         key = 'unexplained:' + kind
       else:
@@ -1110,9 +1120,17 @@ def time_sweep(c):
   for j, t in enumerate(vals):
     tt = t + (j % 7) * 1234567
     trial = tr.Trial(id=1, creation_time=dt_of(t), completion_time=dt_of(tt), final_measurement=tr.Measurement())
-    p = pc.TrialConverter.to_proto(trial)
-    b = pc.TrialConverter.from_proto(p)
     c.count(1, kind='time-sweep')
+    try:
+      p = pc.TrialConverter.to_proto(trial)
+      b = pc.TrialConverter.from_proto(p)
+    except Exception as e:   # pylint: disable=broad-except
+      bad += 1
+      c.prop_fail('timestamp-raises', 'converting a trial created at %d us raised %s: %s' % (t, type(e).__name__, str(e)[:200]),
+                  {'type': 'time', 'us': [t, tt]})
+      if bad > 20:
+        break
+      continue
     got = (us_of(b.creation_time), us_of(b.completion_time))
     if got != (t, tt):
       bad += 1
@@ -1128,8 +1146,58 @@ def time_sweep(c):
   c.coverage_extra['time_sweep'] = {'values': len(vals), 'range': '1970..2100 (float seconds resolve < 0.5 us until 2106)', 'failures': bad}
 
 
+def schema_obligations(c):
+  """Translator `proto_schema`: the messages, fields, oneofs, `optional` markers and enum numbers
+  of the current tree's .proto files must be the ones the mirror types of Model/Wire.lean were
+  written against (a new field would silently fall outside the model)."""
+  import os
+  from google.protobuf import descriptor as D
+  from google.protobuf import descriptor_pool
+  want = json.load(open(os.path.join(os.path.dirname(os.path.abspath(__file__)), 'c09_schema.json')))
+  T = {v: k[5:].lower() for k, v in vars(D.FieldDescriptor).items() if k.startswith('TYPE_')}
+  pool = descriptor_pool.Default()
+
+  def fp(desc):
+    out = {}
+    for f in desc.fields:
+      t = T[f.type]
+      if f.message_type is not None:
+        t += ':' + f.message_type.full_name
+      if f.enum_type is not None:
+        t += ':' + f.enum_type.full_name
+      rep = f.is_repeated if hasattr(f, 'is_repeated') else f.label == f.LABEL_REPEATED
+      if rep:
+        t = 'repeated ' + t
+      o = f.containing_oneof
+      if o is not None:
+        t += ' optional' if o.name.startswith('_') else ' oneof:' + o.name
+      out[f.name] = t
+    return out
+  for name, fields in want['messages'].items():
+    try:
+      got = fp(pool.FindMessageTypeByName(name))
+    except KeyError:
+      got = None
+    c.add_obligation('proto-schema ' + name, got == fields,
+                     '' if got == fields else 'expected %s, the tree has %s' % (json.dumps(fields, sort_keys=True), json.dumps(got, sort_keys=True)))
+  for name, values in want['enums'].items():
+    try:
+      e = pool.FindEnumTypeByName(name)
+      got = {v.name: v.number for v in e.values}
+    except KeyError:
+      got = None
+    c.add_obligation('proto-schema enum ' + name, got == values, '' if got == values else 'expected %s, the tree has %s' % (values, got))
+
+
 def extra_probes(c):
   """Observations that are not judged (fields without a wire representation, outside the property's enumeration)."""
+  try:
+    _extra_probes(c)
+  except Exception as e:   # pylint: disable=broad-except
+    c.prop_fail('probe-raises', 'side probe raised %s: %s' % (type(e).__name__, str(e)[:200]), {'type': 'probe'})
+
+
+def _extra_probes(c):
   bsc, pc = V['bsc'], V['pc']
   m = bsc.MetricInformation(name='m', goal=bsc.ObjectiveMetricGoal.MAXIMIZE, min_value=0.0, max_value=1.0)
   b = pc.MetricInformationConverter.from_proto(pc.MetricInformationConverter.to_proto(m))
@@ -1148,6 +1216,7 @@ def extra_probes(c):
 def run(c):
   c.proof_stage()
   _imports()
+  schema_obligations(c)
   flags = identify_flags(c)
   main_streams(c, flags)
   time_sweep(c)
